@@ -207,3 +207,11 @@ VARIANTS += [
       "np.empty(instance.n_items, dtype=np.int64)", "silent", "",
       "explicit 64-bit type"),
 ]
+
+VARIANTS += [
+    V("bin-count-from-stored-attribute",
+      "moptipyapps/binpacking2d/objectives/bin_count.py",
+      "        return int(x[:, IDX_BIN].max())",
+      "        return int(x.n_bins)", "fire", "D2.1",
+      "seed C02-bin-count-from-stored-attribute"),
+]
